@@ -53,6 +53,8 @@ def _my_odeint_(dfunc, V0, times, args=()):
     return V
 
 def _initialize_node_status_(G, initial_infecteds, initial_recovereds = None):
+    if G.has_node(initial_infecteds): #a single node, as documented
+        initial_infecteds = [initial_infecteds]
     if initial_recovereds is None:
         initial_recovereds = []
     intersection = set(initial_infecteds).intersection(set(initial_recovereds))
@@ -1867,6 +1869,8 @@ def SIS_homogeneous_meanfield_from_graph(G, tau, gamma,
         raise EoN.EoNError("cannot define both initial_infecteds and rho")
     kave = G.size()*2.0/G.order()
     if initial_infecteds is not None:
+        if G.has_node(initial_infecteds): #a single node, as documented
+            initial_infecteds = [initial_infecteds]
         I0 = len(initial_infecteds)
     elif rho is not None:
         I0 = rho*G.order()
@@ -1923,6 +1927,8 @@ def SIR_homogeneous_meanfield_from_graph(G, tau, gamma, initial_infecteds=None,
     if initial_recovereds is None:
         initial_recovereds = []
     if initial_infecteds is not None:
+        if G.has_node(initial_infecteds): #a single node, as documented
+            initial_infecteds = [initial_infecteds]
         I0 = len(initial_infecteds)
     elif rho is not None:
         I0 = rho*G.order()
@@ -2204,6 +2210,8 @@ def SIS_homogeneous_pairwise_from_graph(G, tau, gamma, initial_infecteds=None,
 
     if initial_infecteds is not None:
         status = _initialize_node_status_(G, initial_infecteds)
+        if G.has_node(initial_infecteds): #a single node, as documented
+            initial_infecteds = [initial_infecteds]
         I0= len(initial_infecteds)
         S0 = N-I0
         SS0=0
@@ -2305,6 +2313,8 @@ def SIR_homogeneous_pairwise_from_graph(G, tau, gamma, initial_infecteds=None,
         if initial_recovereds is None:
             initial_recovereds = []
         status = _initialize_node_status_(G, initial_infecteds, initial_recovereds)
+        if G.has_node(initial_infecteds): #a single node, as documented
+            initial_infecteds = [initial_infecteds]
         I0 = len(initial_infecteds)
         R0 = len(initial_recovereds)
         S0 = N-I0-R0
